@@ -548,7 +548,7 @@ GROUPS = {
     "float": [
         ("R4", _compound, None),
         ("R3", r"\b(?:std::)?f64::consts::PI\b", "F::pi()"),
-        ("R3", r"\bstd::f64::MIN\b", "F::min_value()"),
+        ("R3", r"\b(?:std::)?f64::MIN\b(?!_)", "F::min_value()"),
         ("R3", r"\b(?:std::)?f64::EPSILON\b", "F::epsilon()"),
         ("R3", r"\bf64::(\w+)\s*\(", r"F::\1("),
         ("R1", r"\bPI\b", "F::pi()"),
